@@ -53,12 +53,14 @@ def describe(line, verdict, case):
         return out
     op = line[1]
     try:
-        if op in (0, 1, 2):
+        if op in (0, 1, 2, 11):
             if op == 0:
                 nk = line[2]
                 base = 3 + 3 * nk + 2
             elif op == 1:
                 base = 4
+            elif op == 11:
+                base = 5 + line[4]      # 7 11 N1 N2 nt t.. ny: support points k, k1, k2 below are in DOUBLED units (u = k/2)
             else:
                 base = 5
             items = line[base + 1:]
